@@ -270,7 +270,7 @@ Definition aval_in_range (a : attr) (v : aval) : Prop :=
       -1 <= i <= 255 /\
       match sec with
       | None => True
-      | Some c => 0 <= i /\ 0 <= rgb_r c <= 255 /\ 0 <= rgb_g c <= 255 /\ 0 <= rgb_b c <= 255
+      | Some c => 0 <= rgb_r c <= 255 /\ 0 <= rgb_g c <= 255 /\ 0 <= rgb_b c <= 255
       end
   | _, _ => False
   end.
